@@ -540,7 +540,10 @@ func check(id, tier string) int {
 		if ci >= 6 {
 			break
 		}
-		f := byClass[c]
+		f, ok := byClass[c]
+		if !ok {
+			continue // the hang class, handled above
+		}
 		path, rf, err := minimiseAndRecord(spec, tier, base, f)
 		if err != nil {
 			fmt.Fprintf(os.Stderr, "verif: %v\n", err)
